@@ -15,6 +15,7 @@ type c08Params struct {
 	Parked   []int // indices of requests held in the implementation
 	Release  []int // release order (a permutation of Parked)
 	TwoConns bool
+	NotagFirst bool // the first request carries tag 0xFFFF (not reserved by the server)
 	SlowFirst bool // the first connection's client stops reading: its replies pile up, the second connection must not notice
 	Maxpend  int
 	Dotu     bool
@@ -25,6 +26,9 @@ func (p c08Params) name() string {
 	slow := ""
 	if p.SlowFirst {
 		slow = " first-connection-not-reading"
+	}
+	if p.NotagFirst {
+		slow += " first-tag=0xffff"
 	}
 	return fmt.Sprintf("progress kinds=%v parked=%v release=%v twoconns=%v maxpend=%d dotu=%v%s", p.Kinds, p.Parked, p.Release, p.TwoConns, p.Maxpend, p.Dotu, slow)
 }
@@ -40,6 +44,9 @@ func c08Progress(p c08Params) Scenario {
 		s.tags, s.msgs, s.gates = nil, nil, make([]*vs.Sem, len(p.Kinds))
 		for i, k := range p.Kinds {
 			tag := uint16(100 + i)
+			if i == 0 && p.NotagFirst {
+				tag = 0xFFFF
+			}
 			s.tags = append(s.tags, tag)
 			s.msgs = append(s.msgs, s.prepare(strings.TrimSuffix(k, "+destroy"), uint32(10+i), tag))
 		}
@@ -461,6 +468,8 @@ func c08Scenarios(tier string) []Scenario {
 		out = append(out, c08Group(c08GroupParams{Group: 3, FirstGate: true, Others: 2, Maxpend: 2, P: 1}))
 		out = append(out, c08Group(c08GroupParams{Group: 3, FirstGate: false, Others: 0, Maxpend: 0, Dotu: true, Split: true, P: 1}))
 		out = append(out, c08AcrossVersion(false, 0, 2), c08AcrossVersion(true, 2, 2))
+		out = append(out, c08Progress(c08Params{Kinds: []string{"read", "stat"}, Parked: []int{0}, Release: []int{0}, NotagFirst: true, Maxpend: 0, P: 2}),
+			c08Progress(c08Params{Kinds: []string{"walk", "write", "stat"}, Parked: []int{0}, Release: []int{0}, NotagFirst: true, Maxpend: 2, Dotu: true, P: 1}))
 		return out
 	}
 	i := 0
@@ -498,6 +507,7 @@ func c08Scenarios(tier string) []Scenario {
 	}
 	for _, mp := range []int{0, 1, 2} {
 		out = append(out, c08AcrossVersion(mp%2 == 0, mp, 3))
+		out = append(out, c08Progress(c08Params{Kinds: []string{"read", "stat", "write"}, Parked: []int{0}, Release: []int{0}, NotagFirst: true, Maxpend: mp, Dotu: mp == 1, P: 2}))
 	}
 	out = append(out, c08Group(c08GroupParams{Group: 8, FirstGate: true, Others: 3, Maxpend: 0, P: 0}))
 	out = append(out, c08Group(c08GroupParams{Group: 5, FirstGate: false, Others: 2, Maxpend: 2, Split: true, P: 1}))
@@ -507,7 +517,7 @@ func c08Scenarios(tier string) []Scenario {
 func init() {
 	register(&Property{ID: "C08", Level: "model_checking",
 		Technique: "stateless model checking of the real server under a controlled scheduler (all schedules within a preemption bound); blocking decided at quiescent states, no clocks",
-		Rule:      "every schedule with at most P preemptions per scenario: (a) every non-empty proper subset of n requests parked in the implementation, every release order, one or two connections, Maxpend 0..2, plus implementations blocked inside FidDestroy, plus a first connection whose client stops reading - at the quiescent state reached while the subset is parked every other request must have its reply; (b) groups of 2..8 requests under one tag mixed with other tags - start/finish intervals in the implementation log disjoint and in arrival order, replies in that order; a shared tag used across a Tversion in mid-session (held request, Tversion, two more requests under the tag). distinct = distinct per-object operation orders",
+		Rule:      "every schedule with at most P preemptions per scenario: (a) every non-empty proper subset of n requests parked in the implementation, every release order, one or two connections, Maxpend 0..2 (also with the blocked request carrying tag 0xFFFF), plus implementations blocked inside FidDestroy, plus a first connection whose client stops reading - at the quiescent state reached while the subset is parked every other request must have its reply; (b) groups of 2..8 requests under one tag mixed with other tags - start/finish intervals in the implementation log disjoint and in arrival order, replies in that order; a shared tag used across a Tversion in mid-session (held request, Tversion, two more requests under the tag). distinct = distinct per-object operation orders",
 		Assumptions: []string{"code between two synchronisation operations is atomic (race-free executions)", "transport modelled as an unbounded reliable byte queue", "'delayed' means: not answered in a state where nothing but the blocked requests could still run"},
 		Scenarios:   c08Scenarios, QuickS: 180, ThoroughS: 1500})
 }
